@@ -1,6 +1,24 @@
-//! Further job kinds (cache histories, threads, serialization, DOT export).
+//! Dispatch to the per-property job modules.
 use serde_json::{json, Value};
 
-pub fn run(kind: &str, _job: &Value) -> Value {
+pub fn run(kind: &str, job: &Value) -> Value {
+    if let Some(v) = crate::c08::run(kind, job) {
+        return v;
+    }
+    if let Some(v) = crate::c13::run(kind, job) {
+        return v;
+    }
+    if let Some(v) = crate::c15::run(kind, job) {
+        return v;
+    }
+    if let Some(v) = crate::c16::run(kind, job) {
+        return v;
+    }
+    if let Some(v) = crate::c17::run(kind, job) {
+        return v;
+    }
+    if let Some(v) = crate::c18::run(kind, job) {
+        return v;
+    }
     json!({"error": format!("unknown job kind {}", kind)})
 }
